@@ -75,6 +75,31 @@ SPARSE = ('Reservoir Model, 4\nReservoir Depth, 3\nEnd-Use Option, 1\nPower Plan
           'Time steps per year, 2\nPrint Output to Console, 0\n')   # everything else is left to the declared defaults
 
 
+def explicit_text(base: str) -> str:
+    """Worker: `base` plus one line `name, default` for every float parameter it does not mention whose declared default lies inside
+    its declared range - an input that leans on nothing implicit (whether a parameter counts as provided must not depend on the
+    entry point)."""
+    from .c07 import build, params_of
+    import math
+    m = build(base, read=False)
+    named = {ln.split(',')[0].strip() for ln in base.splitlines() if ',' in ln}
+    out, seen = [], set()
+    for mod, p in params_of(m):
+        if type(p).__name__ != 'floatParameter' or not hasattr(p, 'Name'):
+            continue
+        nm = p.Name.strip()
+        if nm in named or nm in seen or nm.startswith(('Overpressure', 'Injection Reservoir')):
+            continue        # (writing the overpressure inputs switches that whole feature on; with an impedance model the writer then dies)
+        seen.add(nm)
+        try:
+            d, lo, hi = float(p.DefaultValue), float(p.Min), float(p.Max)
+        except (TypeError, ValueError):
+            continue
+        if math.isfinite(d) and lo <= d <= hi:
+            out.append(f'{nm}, {d!r}')
+    return base.rstrip('\n') + '\n' + '\n'.join(out) + '\n'
+
+
 def _prelude(texts: list):
     """A process that has already served other inputs (client calls; failures ignored)."""
     from geophires_x_client import GeophiresXClient
@@ -260,6 +285,13 @@ def run(tier: str) -> int:
     pr.update({'Surface Temperature': 4.0, 'Ambient Temperature': 3.0, 'Utilization Factor': 0.71, 'Water Loss Fraction': 0.09,
                'Number of Production Wells': 4, 'Number of Injection Wells': 3, 'Maximum Temperature': 310})
     rich = [gen.to_text(pr), ex['example_multiple_gradients'], ex['example3'], texts['failread0']]
+    # inputs that spell out every in-range default (kept only if the simulator accepts them)
+    cand = {f'explicit{k}': t for k, t in enumerate(sim.call_in_pool('harness.c20:explicit_text', [texts['ok0'], texts['sparse1']], procs=2))}
+    for o in sim.run_many(list(cand.items()), 'harness.c12:project'):
+        if o['status'] == 'ok':
+            texts[o['tag']] = cand[o['tag']]
+        else:
+            res.count('explicit_default_inputs_refused')
     idents = list(texts)
     failing = {i for i in idents if i.startswith('fail')}
     for ident in idents:
